@@ -301,7 +301,7 @@ def run(ctx):
     lc = LinearChecker(w.problem)
     g = Gen17(w, rng)
     exprs = [(e, "targeted") for e in targeted(w)]
-    n_rand = 450 if ctx.quick else 20000
+    n_rand = 450 if ctx.quick else 50000
     for i in range(n_rand):
         try:
             exprs.append((g.num(rng.choice([3, 4, 5, 5, 6, 6, 6])), "random"))
